@@ -15,8 +15,16 @@ def install(lib):
     E["logging.getLogger"] = lambda I, a, k, fr, n: LibObj("logger")
 
     # ---- marshmallow declarations (A-MM); the load/dump algorithm is in mm.py
+    EXPLICIT_DEFAULTS = {"allow_none": False, "load_only": False, "dump_only": False, "data_key": None, "attribute": None}
+
     def field(ftype):
         def mk(I, a, k, fr, n):
+            for kw, val in k.items():
+                # an option this model does not implement may only be spelled with its documented default value
+                if kw not in ("validate", "required", "keys", "values") and not (kw in EXPLICIT_DEFAULTS and val is EXPLICIT_DEFAULTS[kw]):
+                    raise Unsupported(f"marshmallow field option {kw}={val!r}")
+            if len(a) > (1 if ftype == "Nested" else 0):
+                raise Unsupported("positional marshmallow field arguments")
             v = k.get("validate")
             vals = [] if v is None else (list(v) if isinstance(v, (list, tuple)) else [v])
             inner = None
@@ -26,8 +34,9 @@ def install(lib):
                 inner = a[0]
             return LibObj("mm_field", fieldcls=None, ftype=ftype, required=k.get("required", False), validators=vals, inner=inner)
         return mk
-    for ft in ("Int", "Str", "Bool", "Dict", "Nested", "Integer", "String"):
-        E[f"marshmallow.fields.{ft}"] = field(ft)
+    # (Integer / String / Boolean are the same classes as Int / Str / Bool in marshmallow 3)
+    for name, ft in (("Int", "Int"), ("Integer", "Int"), ("Str", "Str"), ("String", "Str"), ("Bool", "Bool"), ("Boolean", "Bool"), ("Dict", "Dict"), ("Nested", "Nested")):
+        E[f"marshmallow.fields.{name}"] = field(ft)
 
     def v_range(I, a, k, fr, n):
         bad = _template_exc(k.get("error"), ("input", "min", "max"))
